@@ -159,6 +159,7 @@ def as_str(st, v):
 
 def closure_fn(ex, callee_or_val):
     if isinstance(callee_or_val, tuple) and callee_or_val[0] == 'closure': span = callee_or_val[1]
+    elif isinstance(callee_or_val, tuple) and callee_or_val[0] == 'zst' and 'closure@' in callee_or_val[1]: span = re.search(r'\{closure@(.*?)\}', callee_or_val[1]).group(1)
     else: span = re.search(r'\{closure@(.*?)\}', callee_or_val).group(1)
     fs = [f for f in ex.fns if '{closure#' in f.name and ('{closure@%s}' % span) in f.sig]
     if len(fs) != 1: raise Unsupported('closure body for %s: %d candidates' % (span, len(fs)))
@@ -167,7 +168,7 @@ def closure_fn(ex, callee_or_val):
 
 def call_closure(ex, st, clo_val, callee, args):
     """run a closure body; returns [(state, value)]"""
-    f = closure_fn(ex, clo_val if (isinstance(clo_val, tuple) and clo_val[0] == 'closure') else callee)
+    f = closure_fn(ex, clo_val if (isinstance(clo_val, tuple) and (clo_val[0] == 'closure' or (clo_val[0] == 'zst' and 'closure@' in clo_val[1]))) else callee)
     ex.stats['inlined'].add(f.name)
     env = clo_val if (isinstance(clo_val, tuple) and clo_val[0] == 'closure') else ('closure', '', ())
     first = f.sig.split(',')[0]
@@ -289,6 +290,19 @@ def c_ok_or_else(ex, st, callee, a):
 
 @contract(r'^std::option::Option::<.*>::ok_or::<')
 def c_ok_or(ex, st, callee, a): return [(None, ok(a[0][3][0]) if a[0][2] == 'Some' else err(a[1]))]
+
+
+@contract(r'^std::option::Option::<.*>::map_or::<', r'^Result::<.*>::map_or::<')
+def c_map_or(ex, st, callee, a):
+    v = a[0]
+    if v[2] in ('None', 'Err'): return [(None, a[1])]
+    return [(None, val, s2) for s2, val in call_closure(ex, st, a[2], callee, [v[3][0]])]
+
+
+@contract(r'^std::option::Option::<.*>::and_then::<')
+def c_option_and_then(ex, st, callee, a):
+    if a[0][2] == 'None': return [(None, NONE)]
+    return [(None, val, s2) for s2, val in call_closure(ex, st, a[1], callee, [a[0][3][0]])]
 
 
 @contract(r'^std::option::Option::<.*>::is_some$')
